@@ -64,6 +64,9 @@ class Kit:
         # a schema with a frame-level dtype and components without a dtype of their own
         self.SD = pa.DataFrameSchema({"a": pa.Column(checks=pa.Check.ge(0)), "b": pa.Column(float)},
                                      index=pa.Index(name="idx"), dtype=int)
+        # a schema data can be synthesised for: built-in checks only, jointly unique columns
+        self.SU = pa.DataFrameSchema({"a": pa.Column(int, pa.Check.ge(0)), "b": pa.Column(float, pa.Check.in_range(0, 10)),
+                                      "c": pa.Column(int, pa.Check.isin([1, 2, 3]))}, unique=["a", "b"], index=pa.Index(int))
         self.typed = {True: pd.DataFrame({"a": [1, 2], "b": [3, 4]}, index=pd.Index([0, 1], name="idx")),
                       False: pd.DataFrame({"a": [1.5, 2.0], "b": [3, 4]}, index=pd.Index([0, 1], name="idx"))}
         self.frames = {
@@ -79,6 +82,7 @@ class Kit:
         self.fp_S = fingerprint(self.S)
         self.fp_RX = fingerprint(self.RX)
         self.fp_SD = fingerprint(self.SD)
+        self.fp_SU = fingerprint(self.SU)
 
     def make_schema(self):
         pa = self.pa
@@ -98,6 +102,8 @@ class Kit:
             names.add(_abstract("RX", path))
         for path, _a, _b in diff(self.fp_SD, fingerprint(self.SD)):
             names.add(_abstract("SD", path))
+        for path, _a, _b in diff(self.fp_SU, fingerprint(self.SU)):
+            names.add(_abstract("SU", path))
         return sorted(names)
 
 
@@ -196,6 +202,10 @@ def observe_history(vec: Dict[str, Any]) -> Dict[str, Any]:
                         copy.deepcopy(kit.RX)      # local callbacks cannot be pickled; copy protocol instead
                     elif name == "strategy":
                         S.strategy(size=2)
+                        kit.SU.strategy(size=2)
+                    elif name == "example":
+                        ex = kit.SU.example(size=2)
+                        outcome = "ok" if len(ex) == 2 else "example_of_wrong_size"
                     elif name == "coerce_dtype":
                         S.coerce_dtype(kit.frames["good"].copy())
                     elif name == "add_columns":
